@@ -4,6 +4,10 @@
 #[path = "/repo/crates/http/src/config.rs"]
 pub mod config;
 pub mod workers {
+    pub mod socket {
+        #[path = "/repo/crates/http/src/workers/socket/request.rs"]
+        pub mod request;
+    }
     pub mod swarm {
         #[path = "/repo/crates/http/src/workers/swarm/storage.rs"]
         pub mod storage;
@@ -12,3 +16,5 @@ pub mod workers {
 
 #[cfg(kani)]
 mod c07;
+#[cfg(kani)]
+mod c03;
